@@ -363,6 +363,9 @@ pub struct Compiler<'a, E: quiver_core::effects::Effect> {
     // VM stack at this point of the current function. A tail call replaces the frame, so it is
     // only well-formed when this is zero (tail position).
     pending_operands: usize,
+    // Whether the sequence compiled last can yield nil because a step before its last one
+    // short-circuited (set at the end of `compile_sequence`, read right after it returns).
+    last_sequence_short_circuits: bool,
     // Caller-owned; the caller keeps it after the compile (success or failure) to read the
     // type registry the semantic recorder's type-ids point into.
     program: &'a mut Program,
@@ -507,6 +510,7 @@ impl<'a, E: quiver_core::effects::Effect> Compiler<'a, E> {
             scopes: vec![],
             local_count: 0,
             pending_operands: 0,
+            last_sequence_short_circuits: false,
             program,
             resolver,
             current_package,
@@ -2105,6 +2109,10 @@ impl<'a, E: quiver_core::effects::Effect> Compiler<'a, E> {
                 None,
                 Some(&mut narrowing),
             )?;
+            // The condition can also fail because an earlier step of it yielded nil; then a
+            // test in its last step that covers every remaining value does not make the block
+            // exhaustive (`{ g, _ = Ok => 5 }` with a g that may return nil).
+            let condition_short_circuits = self.last_sequence_short_circuits;
 
             // Capture this branch's parameter guard (now that the condition's pattern has
             // narrowed it) and the branch_types length, so we can pair the guard with the
@@ -2131,9 +2139,11 @@ impl<'a, E: quiver_core::effects::Effect> Compiler<'a, E> {
                     faithfully_covered.push(guard);
                 }
                 let complement = compute_complement(original, narrowed, self.program);
-                if self.is_never(complement) {
+                if self.is_never(complement) && !condition_short_circuits {
                     // All variants covered - block is exhaustive
                     is_exhaustive = true;
+                } else if self.is_never(complement) {
+                    // Covered, but the condition may have short-circuited before the test.
                 } else if !is_last_branch {
                     // Accumulate (or refine) this provenance's complement. It was computed
                     // against the already-accumulated narrowing for this provenance, so
@@ -2466,6 +2476,7 @@ impl<'a, E: quiver_core::effects::Effect> Compiler<'a, E> {
         let mut threaded: Option<(usize, Provenance)> =
             input_type.map(|t| (t, Provenance::Unknown));
         let mut end_jumps = Vec::new();
+        let mut short_circuits = false;
 
         for (i, chain) in sequence.chains.iter().enumerate() {
             // Track bindings before this chain for inter-chain narrowing
@@ -2505,6 +2516,7 @@ impl<'a, E: quiver_core::effects::Effect> Compiler<'a, E> {
             // If a prior chain could short-circuit to nil, the sequence's result includes nil.
             let should_propagate_nil =
                 i > 0 && last_type.as_ref().is_some_and(|&t| self.contains_nil(t));
+            short_circuits |= should_propagate_nil;
             last_type = Some(if should_propagate_nil {
                 let nil_type_id = self.program.register_type(Type::nil());
                 typing::union_type_ids(self.program, vec![chain_type, nil_type_id])
@@ -2560,6 +2572,7 @@ impl<'a, E: quiver_core::effects::Effect> Compiler<'a, E> {
         let result_type = last_type.ok_or_else(|| Error::InternalError {
             message: "Sequence compiled with no chains".to_string(),
         })?;
+        self.last_sequence_short_circuits = short_circuits;
         Ok((result_type, last_prov))
     }
 
